@@ -58,7 +58,7 @@ def _tok(isa):
     terms = [n for n in names if tab[n].kind != "ord"]
     ref = st.fixed_dictionaries({"k": st.sampled_from(["own", "own", "mod", "undef"]), "i": _small})
     insn = st.fixed_dictionaries({"t": st.sampled_from(ords + ords + terms if terms else ords), "sym": ref,
-                                  "imm": st.integers(0, 0xFFFF)})
+                                  "imm": st.integers(0, 0xFFFF), "add": st.sampled_from([0, 0, 0, 8, 16])})
     lab = st.fixed_dictionaries({"lab": st.integers(0, 5), "temp": st.booleans()})
     data = st.one_of(
         st.fixed_dictionaries({"d": st.just("byte"), "v": st.lists(st.integers(0, 255), min_size=1, max_size=4)}),
@@ -277,9 +277,13 @@ def _program(spec):
         if tpl.symfield is not None:
             symname, how = resolve(t["sym"], tpl.kind in ("jmp", "jcc", "call"))
         data = I.encode(isa, tpl, t.get("imm", 0))
-        lines.append(I.render(isa, tpl, symname, t.get("imm", 0), intel=intel))
+        # data references (not branch targets) may carry an addend: sym+8
+        add = t.get("add", 0) if (symname and tpl.kind == "ord") else 0
+        if add < 0:
+            raise BadSpec("negative addend")
+        lines.append(I.render(isa, tpl, symname + (f"+{add}" if add else "") if symname else None, t.get("imm", 0), intel=intel))
         sections[cur].append(_Item("insn", pos[cur], len(data), data=data, ikind=tpl.kind, sym=symname, how=how,
-                                   addend=0, field=tpl.symfield, tname=tpl.name))
+                                   addend=add, field=tpl.symfield, tname=tpl.name))
         pos[cur] += len(data)
     if proc is not None:
         if cur != ".text":
